@@ -158,6 +158,24 @@ def spellings(rng: random.Random, name: str, backslash: bool = True, case: bool 
     return out
 
 
+def strip_dots_keep(s: str) -> str:
+    """Remove '.' segments only; slash kinds and everything else stay as spelled."""
+    out = s
+    for sep in ('/', '\\'):
+        while out.startswith('.' + sep):
+            out = out[2:]
+        out = out.replace(sep + '.' + sep, sep)
+    return '' if out == '.' else out
+
+
+def collapse_slashes(s: str) -> str:
+    """'a\\/b' and 'a//b' -> one separator (what os.path.join leaves behind for a prefix ending in a backslash)."""
+    out = s.replace('\\/', '/')
+    while '//' in out:
+        out = out.replace('//', '/')
+    return out
+
+
 def strip_dots(s: str) -> str:
     parts = [p for p in s.replace('\\', '/').split('/') if p != '.']
     return '/'.join(parts)
@@ -330,18 +348,26 @@ class Checker:
             pass
         return a, None
 
+    def classify_lookup(self, fs: Any, q: str, want: Optional[bytes], got: Optional[bytes], err: Optional[str]) -> str:
+        """A spelling feature (dot segment, doubled slash) is the mechanism exactly when removing it changes the answer."""
+        prev, prev_ans = q, (got, err)
+        for simplify, key in ((strip_dots_keep, 'dot-segment-not-normalised'), (collapse_slashes, 'doubled-slash-not-normalised')):
+            simpler = simplify(prev)
+            if simpler != prev:
+                ans = self.try_lookup(fs, simpler)
+                if ans != prev_ans:
+                    return key
+                prev = simpler
+        if want is None and got is not None:
+            return 'lookup-finds-unstored-name'
+        return 'lookup-mismatch'
+
     def check_lookup(self, b: Built, kind: str, q: str, want: Optional[bytes], scope: str) -> bool:
         got, err = self.try_lookup(b.fs, q)
         self.run.count('lookups')
         if err is None and got == want:
             return True
-        key = 'lookup-mismatch'
-        if 'dot' in kind:
-            g2, e2 = self.try_lookup(b.fs, strip_dots(q))
-            if e2 is None and g2 == want:
-                key = 'dot-segment-not-normalised'
-        if want is None and got is not None:
-            key = 'lookup-finds-unstored-name'
+        key = self.classify_lookup(b.fs, q, want, got, err)
         self.fail(key, f'{scope}: lookup of {q!r} ({kind} spelling) ' +
                   (err or (f'is reported missing, the file is stored' if got is None else f'returns {got[:40]!r}, expected {None if want is None else want[:40]!r}')),
                   {'backend': scope, 'options': {k: v for k, v in b.opts.items() if k != 'keys'}, 'stored': sorted(n for n, _ in b.ref.by_key.values())[:20]}, scope=scope)
@@ -380,14 +406,15 @@ class Checker:
         when removing it changes the answer; otherwise the answer is judged as for the plain spelling."""
         if len(got) != len(set(got)):
             return 'walk-lists-twice'
-        if 'dot' in kind:
-            again = self.quiet_walk(b, strip_dots(p))
-            if again is not None and sorted(again) != sorted(got):
-                return 'dot-segment-not-normalised'
-        if p.rstrip('/\\') != p:
-            again = self.quiet_walk(b, p.rstrip('/\\'))
-            if again is not None and sorted(again) != sorted(got):
-                return f'{b.kind}-walk-trailing-slash'
+        prev, prev_ans = p, sorted(got)
+        for simplify, key in ((strip_dots_keep, 'dot-segment-not-normalised'), (collapse_slashes, 'doubled-slash-not-normalised'),
+                              (lambda x: x.rstrip('/\\'), f'{b.kind}-walk-trailing-slash')):
+            simpler = simplify(prev)
+            if simpler != prev:
+                again = self.quiet_walk(b, simpler)
+                if again is not None and sorted(again) != prev_ans:
+                    return key
+                prev = simpler
         extra = [k for k in got if k not in want]
         missing = [k for k in want if k not in got]
         pk = b.ref.key(p)
@@ -616,16 +643,31 @@ def engine_chain(run, rng: random.Random, base: str, case_id: Any, sample: bool)
         if got_order != [(id(members[i][0].fs), members[i][1]) for i in final]:
             ck.fail('chain-order', 'chain.systems is not in the order given by constructor arguments and priority insertions')
 
-        def bs_prefix_explains(ok) -> bool:
-            """A member prefix ending in a backslash becomes 'prefix\\/name' -> 'prefix//name' in os.path.join on POSIX.
-            Is the wrong answer gone when the same chain is built with those trailing backslashes removed?"""
-            if not any(members[i][1].endswith('\\') for i in final):
-                return False
-            twin = FileSystemChain(*[(members[i][0].fs, members[i][1].rstrip('\\')) for i in final])
-            try:
-                return bool(ok(twin))
-            except Exception:
-                return False
+        def chain_arg(prefix: str, name: str) -> str:
+            return os.path.join(prefix, name).replace('\\', '/')   # what FileSystemChain hands to a member
+
+        def blame_member_lookup(q: str) -> Optional[str]:
+            """First member whose own answer to the name the chain hands it differs from that member's model."""
+            for i in final:
+                b, pre, _ = members[i]
+                arg = chain_arg(pre, q)
+                want_i = b.ref.lookup(join(pre, q))
+                got_i, err_i = ck.try_lookup(b.fs, arg)
+                if err_i is not None or got_i != want_i:
+                    return ck.classify_lookup(b.fs, arg, want_i, got_i, err_i)
+            return None
+
+        def blame_member_walk(p: str) -> Optional[str]:
+            for i in final:
+                b, pre, _ = members[i]
+                arg = chain_arg(pre, p)
+                want_i = b.ref.walk(join(pre, p))
+                got_i = ck.quiet_walk(b, arg)
+                if got_i is None:
+                    return 'walk-raises'
+                if sorted(got_i) != sorted(want_i):
+                    return ck.classify_walk(b, 'exact', arg, want_i, got_i)
+            return None
 
         def join(prefix: str, name: str) -> str:
             return norm(prefix + '/' + name) if prefix else norm(name)
@@ -667,13 +709,12 @@ def engine_chain(run, rng: random.Random, base: str, case_id: Any, sample: bool)
                 got, err = ck.try_lookup(chain, q)
                 if err is None and got == want:
                     continue
-                key = 'chain-lookup-mismatch'
-                if 'dot' in kind and ck.try_lookup(chain, strip_dots(q)) != (got, err):
-                    key = 'dot-segment-not-normalised'   # removing the "./" changes the answer
-                elif bs_prefix_explains(lambda c2: ck.try_lookup(c2, q) == (want, None)):
-                    key = 'doubled-slash-not-normalised'
-                elif got is not None and want is not None and any(got == members[i][0].ref.lookup(join(members[i][1], q)) for i in final):
-                    key = 'chain-priority-violated'
+                key = blame_member_lookup(q)
+                if key is None:
+                    if got is not None and any(got == members[i][0].ref.lookup(join(members[i][1], q)) for i in final):
+                        key = 'chain-priority-violated'
+                    else:
+                        key = 'chain-lookup-mismatch'
                 ck.fail(key, f'chain lookup of {q!r} ({kind}) ' + (err or f'returns {None if got is None else got[:40]!r}, the first member that has it holds {None if want is None else want[:40]!r}'),
                         {'layout': layout})
         for q in ['nothere.txt', 'zz/' + (visible[0] if visible else 'a'), (visible[0] if visible else 'a') + 'x']:
@@ -715,22 +756,13 @@ def engine_chain(run, rng: random.Random, base: str, case_id: Any, sample: bool)
                     extra = sorted(set(got_keys) - set(want_keys))
                     if which == 'walk_folder' and len(got_keys) != len(set(got_keys)):
                         key = 'chain-walk-lists-twice'
-                    elif bs_prefix_explains(lambda c2: sorted(norm(f.path).casefold() for f in getattr(c2, which)(p)) == want_keys):
-                        key = 'doubled-slash-not-normalised'
-                    elif extra and all(k.startswith('../') for k in extra):
-                        # os.path.relpath() against the member prefix climbed out: the listed path does not start
-                        # with the prefix as spelled - either a sibling folder matched by string prefix, or a case difference
-                        inner = []
-                        for k in extra:
-                            while k.startswith('../'):
-                                k = k[3:]
-                            inner.append(k)
-                        pre_keys = [norm(members[i][1]).casefold() for i in final if members[i][1]]
-                        key = 'chain-walk-relpath-case' if all(any(inside(k, pk) for pk in pre_keys) for k in inner) else 'walk-prefix-not-folder'
-                    elif extra and not set(want_keys) - set(got_keys):
-                        key = 'walk-prefix-not-folder' if all(k.startswith(norm(p).casefold()) for k in extra) else 'chain-walk-mismatch'
                     else:
-                        key = 'chain-walk-mismatch'
+                        key = blame_member_walk(p)
+                        if key is None:
+                            # every member lists its folder correctly: the chain's own relativisation is at fault.
+                            # os.path.relpath() compares text, so a prefix spelled in another case (or with a backslash)
+                            # than the member's paths is "left" through '../'.
+                            key = 'chain-walk-relpath-case' if extra and all(k.startswith('../') for k in extra) else 'chain-walk-mismatch'
                     ck.fail(key, f'chain.{which}({p!r}) ({kind}) lists {sorted(got_keys)[:8]}, expected {want_keys[:8]}',
                             {'layout': layout, 'extra': extra[:6], 'missing': sorted(set(want_keys) - set(got_keys))[:6]}, scope=which)
                     continue
@@ -745,7 +777,7 @@ def engine_chain(run, rng: random.Random, base: str, case_id: Any, sample: bool)
                             continue
                         run.count('listed_names_looked_up')
                         if own != want_once[k]:
-                            ck.fail('chain-priority-violated', f'chain.walk_folder({p!r}) lists {f.path!r} with bytes {own[:40]!r}; the first member holding it has {want_once[k][:40]!r}', {'layout': layout})
+                            ck.fail(blame_member_walk(p) or 'chain-priority-violated', f'chain.walk_folder({p!r}) lists {f.path!r} with bytes {own[:40]!r}; the first member holding it has {want_once[k][:40]!r}', {'layout': layout})
                         # a listed name can be looked up - with exact-case Raw members a folded duplicate may legitimately
                         # resolve to another member, so the bytes are compared with the model's answer for that spelling
                         via, err = ck.try_lookup(chain, f.path)
@@ -782,7 +814,7 @@ def main(run, shard=(0, 1)) -> None:
     })
     probe.start()
     thorough = run.tier == 'thorough'
-    counts = {'backends': 9000 if thorough else 260, 'casedup': 3000 if thorough else 80, 'chain': 20000 if thorough else 500}
+    counts = {'backends': 12000 if thorough else 600, 'casedup': 3000 if thorough else 150, 'chain': 30000 if thorough else 1200}
     base = tempfile.mkdtemp(prefix='rv-c19-')
     try:
         for engine, n in counts.items():
